@@ -332,12 +332,20 @@ func tmClass(tm terminator) string {
 
 // context cancellation on the context-aware sources and operators
 func c14CtxCase(name string, mk func(src ro.Observable[int]) ro.Observable[int], needsPush bool) fw.Case {
+	return c14CtxCaseOpt(name, mk, needsPush, false)
+}
+
+// c14CtxCaseOpt with teardowns=true is C03's reading of the same scenario: a teardown added to the returned
+// subscription must have run exactly once after the cancellation ended the stream.
+func c14CtxCaseOpt(name string, mk func(src ro.Observable[int]) ro.Observable[int], needsPush bool, teardowns bool) fw.Case {
 	return fw.Case{Name: "cancel-context", Opts: vrt.Options{Horizon: 40000, MaxTime: int64(20 * u)}, Make: func() fw.Instance {
 		rec := h.NewRec("out")
 		src := h.NewSrc("src")
 		env := &c14env{}
 		var live int
 		var ret bool
+		added := &tdCount{}
+		didAdd := false
 		body := func() {
 			o, push := h.Pushed[int](src, h.Unsafe)
 			ctx, cancel := context.WithCancel(context.Background())
@@ -347,6 +355,10 @@ func c14CtxCase(name string, mk func(src ro.Observable[int]) ro.Observable[int],
 				env.setSub(s)
 			})
 			vrt.Settle()
+			if s, ok := env.returned(); ok && teardowns && s != nil {
+				s.Add(func() { added.Inc() })
+				didAdd = true
+			}
 			if needsPush {
 				push.Next(1)
 				vrt.Settle()
@@ -374,6 +386,9 @@ func c14CtxCase(name string, mk func(src ro.Observable[int]) ro.Observable[int],
 			if !ret {
 				out = append(out, fw.V(sig+"/subscribe-still-running/context", fmt.Sprintf("%s: after cancellation the Subscribe call has not returned", name)))
 			}
+			if n := added.Get(); teardowns && didAdd && hasTerminal(rec.Events()) && n != 1 {
+				out = append(out, fw.V(fmt.Sprintf("%s/added-teardown-runs/%d-times", sig, n), fmt.Sprintf("%s: the stream ended by cancellation; a teardown added to the subscription before ran %d times", name, n)))
+			}
 			for _, b := range r.Blocked {
 				if b.Name != "subscribe" && b.Name != "main" {
 					out = append(out, fw.V(sig+"/goroutine-left/"+b.Name, fmt.Sprintf("%s: library goroutine %s still blocked (%s)", name, b.Name, b.Op)))
@@ -383,6 +398,45 @@ func c14CtxCase(name string, mk func(src ro.Observable[int]) ro.Observable[int],
 			return out
 		}}
 	}}
+}
+
+
+type tdCount struct{ n int }
+
+//go:norace
+func (c *tdCount) Inc() { c.n++ }
+
+//go:norace
+func (c *tdCount) Get() int { return c.n }
+
+type c14CtxOp struct {
+	name string
+	mk   func(src ro.Observable[int]) ro.Observable[int]
+	push bool
+}
+
+func c14CtxOps() []c14CtxOp {
+	return []c14CtxOp{
+			{"Interval", func(ro.Observable[int]) ro.Observable[int] {
+				return ro.Map(func(v int64) int { return int(v) })(ro.Interval(100 * u))
+			}, false},
+			{"IntervalWithInitial", func(ro.Observable[int]) ro.Observable[int] {
+				return ro.Map(func(v int64) int { return int(v) })(ro.IntervalWithInitial(50*u, 100*u))
+			}, false},
+			{"Timer", func(ro.Observable[int]) ro.Observable[int] {
+				return ro.Map(func(v timeDur) int { return 0 })(ro.Timer(100 * u))
+			}, false},
+			{"Never", func(ro.Observable[int]) ro.Observable[int] {
+				return ro.Map(func(struct{}) int { return 0 })(ro.Never())
+			}, false},
+			{"RangeWithInterval", func(ro.Observable[int]) ro.Observable[int] {
+				return ro.Map(func(v int64) int { return int(v) })(ro.RangeWithInterval(0, 5, 100*u))
+			}, false},
+			{"ThrowOnContextCancel(src)", func(s ro.Observable[int]) ro.Observable[int] { return ro.ThrowOnContextCancel[int]()(s) }, true},
+			{"RetryWithConfig(delay)(Throw)", func(ro.Observable[int]) ro.Observable[int] {
+				return ro.RetryWithConfig[int](ro.RetryConfig{MaxRetries: 5, Delay: 100 * u})(ro.Throw[int](h.ErrSrc))
+			}, false},
+		}
 }
 
 var c14Bound = 1
@@ -426,31 +480,7 @@ func init() {
 				}})
 			}
 		}
-		ctxOps := []struct {
-			name string
-			mk   func(src ro.Observable[int]) ro.Observable[int]
-			push bool
-		}{
-			{"Interval", func(ro.Observable[int]) ro.Observable[int] {
-				return ro.Map(func(v int64) int { return int(v) })(ro.Interval(100 * u))
-			}, false},
-			{"IntervalWithInitial", func(ro.Observable[int]) ro.Observable[int] {
-				return ro.Map(func(v int64) int { return int(v) })(ro.IntervalWithInitial(50*u, 100*u))
-			}, false},
-			{"Timer", func(ro.Observable[int]) ro.Observable[int] {
-				return ro.Map(func(v timeDur) int { return 0 })(ro.Timer(100 * u))
-			}, false},
-			{"Never", func(ro.Observable[int]) ro.Observable[int] {
-				return ro.Map(func(struct{}) int { return 0 })(ro.Never())
-			}, false},
-			{"RangeWithInterval", func(ro.Observable[int]) ro.Observable[int] {
-				return ro.Map(func(v int64) int { return int(v) })(ro.RangeWithInterval(0, 5, 100*u))
-			}, false},
-			{"ThrowOnContextCancel(src)", func(s ro.Observable[int]) ro.Observable[int] { return ro.ThrowOnContextCancel[int]()(s) }, true},
-			{"RetryWithConfig(delay)(Throw)", func(ro.Observable[int]) ro.Observable[int] {
-				return ro.RetryWithConfig[int](ro.RetryConfig{MaxRetries: 5, Delay: 100 * u})(ro.Throw[int](h.ErrSrc))
-			}, false},
-		}
+		ctxOps := c14CtxOps()
 		for _, co := range ctxOps {
 			co := co
 			scns = append(scns, fw.Scenario{ID: "C14/ctx/" + co.name, Group: "context", Run: func(c *fw.Ctx) {
